@@ -2,9 +2,14 @@
 import ast
 
 from ..core import Unrecognised, call_name, const_str, norm, walk_no_nested, const_eval, NotConstant, if_chain
+import itertools
+import os
+
 from ..rx import Rx
 from .. import schema as schema_mod
 from ..rt import EvalExpr, ALL_BINARY
+from ..absint import Sym
+from ..exprsim import (classify_expr_regexes, group_language, ExprInterp, AStream, reference, Reject, normal, pretty, show, LADDER, RUNG)
 
 EXPLANATION = (
     'C02.T: the precedence table BINARY_REORDER (constant-folded from its source, so a generated table is accepted) must '
@@ -12,23 +17,20 @@ EXPLANATION = (
     '== != > && > || (14 x 14 entries, set equality): an extra same-rung entry flips associativity, a missing lower-rung '
     'entry breaks precedence. C02.A: the operator alternation of the tokeniser regex, the table keys, the schema enum and '
     'the operators dispatched by the evaluator are the same set (binary and unary). C02.L: in the ordered alternation a '
-    'longer operator precedes each of its proper prefixes. C02.S: the re-ordering loop of _parse_binary_expression is '
-    'recognised by shape - top test and loop test use the same table row of the NEW operator, the cursor descends only '
-    'along binary.right of the node just inspected, the new node takes the cursor\'s old right child as left and the '
-    'parsed operand as right, otherwise the new node wraps the whole left tree; the recursion continues with the '
-    'remaining text. With T and S the spine of the tree keeps strictly increasing rungs, which gives precedence and left '
-    'associativity for every chain. C02.D: operand branches of _parse_unary_expression are identified by the regex they '
-    'test (classified from the pattern) and must be tried in an order that resolves every overlap the intended way '
-    '(call before variable, operator before signed number); each branch returns [node, remainder]. C02.U: a unary '
-    'operator wraps the result of parsing the text that follows it (nested prefix operators apply right-to-left). C02.R: '
-    'parse_expression returns only after testing that the remainder is blank and raises otherwise; every path of the '
-    'operand parser ends in return or raise; unmatched parenthesis / missing separator raise. C02.X: every remainder and '
-    'every error text is a suffix of the input (suffix lattice). Decides table and shape; the 14^k enumeration of '
-    'chains is an execution-based check and is not attempted.')
-ENUMERATION = '196 table entries, 4+3 operator tables, ordered operator pairs, spine-loop slots, operand branches, return/raise sites'
+    'longer operator precedes each of its proper prefixes (priority order of the finite language of the capturing group, read '
+    'from the regex tree, so character classes and optional suffixes are understood). C02.S/D/U/R/X (E6x): parse_expression and '
+    'its helpers are evaluated by the abstract interpreter over abstract token streams - the text is a sequence of opaque '
+    'tokens, REGEX.match is an oracle decided from the pattern of the regex constant, slices by the length/end of a match '
+    'advance the stream (a slice by another text\'s match is a mis-aligned remainder), dict templates / the re-ordering walk / '
+    'table lookups / recursion are evaluated exactly on a heap with identity. The resulting tree is compared with a '
+    'ten-line precedence-climbing reference over the same tokens: C02.S every chain a op b op c ... of up to 4 operators '
+    '(14 + 196 + 2744 + 38416), C02.D every operand form (literals, signed numbers, groups, calls with 0-3 arguments) alone, '
+    'left and right of one operator per rung and between two, C02.U stacked prefix operators, C02.R 26 ill-formed sequences '
+    'must be rejected with BareScriptParserError (no host exception, no acceptance), C02.X every error raised on the way '
+    'carries a token-aligned suffix of the input and the final column is len(input) - len(suffix) + 1. The verdict depends on '
+    'the tree the code builds, not on how the code is spelled; Python outside the interpreted subset is ANALYSIS-ERROR.')
+ENUMERATION = '196 table entries, operator tables, ordered operator pairs; 41370 operator chains, ~2300 operand-form sequences, 26 ill-formed sequences (abstract token streams)'
 
-LADDER = [['**'], ['*', '/', '%'], ['+', '-'], ['<=', '<', '>=', '>'], ['==', '!='], ['&&'], ['||']]
-RUNG = {op: i for i, ops in enumerate(LADDER) for op in ops}
 
 
 def check_table(chk, mod):
@@ -65,62 +67,12 @@ def check_table(chk, mod):
     return table
 
 
-def classify_expr_regexes(mod):
-    """expression-token regex constants of parser.py classified from their patterns"""
-    out = {}
-    for name, rg in mod.regexes().items():
-        try:
-            rx = Rx(rg.pattern, rg.flags, name)
-        except Unrecognised:
-            continue
-        items = rx.top_items()
-        if not items or items[0].kind != 'at' or rx.anchored_end():
-            continue
-        rest = [x for x in items[1:] if not Rx.is_ws_star(x)]
-        if not rest:
-            continue
-        first = rest[0]
-        mand = rx.mandatory_chars()
-        lit = Rx.literal_of(first)
-        kind = None
-        if first.kind == 'group':
-            inner = first.kids[0]
-            alts = None
-            try:
-                alts = rx.alternation_literals()
-            except Unrecognised:
-                alts = None
-            if alts and '**' in alts:
-                kind = 'binary_op'
-            elif alts and set(alts) <= {'!', '-', '+', '~'} and len(rest) == 1:
-                kind = 'unary_op'
-            elif any(n.kind == 'in' and ('cat', 'CATEGORY_DIGIT') in n.b for n in rx.walk(first)) and not any(n.kind == 'in' and any(i[0] == 'range' for i in n.b) for n in rx.walk(first)):
-                kind = 'number'
-            elif any(n.kind == 'in' and any(i[0] == 'range' for i in n.b) for n in rx.walk(first)):
-                kind = 'function_open' if (len(rest) > 1 and '(' in mand) else 'variable'
-        elif lit == '(':
-            kind = 'group_open'
-        elif lit == ')':
-            kind = 'close'
-        elif lit == ',':
-            kind = 'separator'
-        elif lit == "'":
-            kind = 'string'
-        elif lit == '"':
-            kind = 'string_double'
-        elif lit == '[':
-            kind = 'variable_ex'
-        if kind:
-            out[name] = (kind, rx)
-    return out
-
-
 def check_agreement(chk, mod, table, rxs):
     bin_rx = [r for n, (k, r) in rxs.items() if k == 'binary_op']
     un_rx = [r for n, (k, r) in rxs.items() if k == 'unary_op']
     if len(bin_rx) != 1 or len(un_rx) != 1:
         raise Unrecognised('C02.A', f'binary / unary operator regexes not identified ({len(bin_rx)}, {len(un_rx)})', mod.rel)
-    alts = bin_rx[0].alternation_literals()
+    alts = group_language(bin_rx[0], 1)
     sch = schema_mod.load(chk.repo.module('model'), 'BARE_SCRIPT_TYPES', 'C02.A')
     enum = sch.enums.get('BinaryExpressionOperator', [])
     ee = EvalExpr(chk.repo, 'C02.A')
@@ -139,7 +91,7 @@ def check_agreement(chk, mod, table, rxs):
                     f'the binary operator set of the {name} differs from the language by {sorted(s ^ ref)}: an operator is tokenised but not ordered/evaluated (or vice versa)')
     if len(alts) != len(set(alts)):
         chk.bad('C02.A', mod, bin_rx[0].name, 'duplicate alternative', 'the operator alternation lists an operator twice')
-    ualts = un_rx[0].alternation_literals()
+    ualts = group_language(un_rx[0], 1)
     uen = sch.enums.get('UnaryExpressionOperator', [])
     if set(ualts) == set(uen) == {'!', '-'}:
         chk.ok('C02.A', 'unary operators: tokeniser alternation = schema enum = {!, -}')
@@ -157,318 +109,276 @@ def check_agreement(chk, mod, table, rxs):
     return bin_rx[0], un_rx[0]
 
 
-def check_spine(chk, mod):
-    func = mod.func('_parse_binary_expression', 'C02.S')
-    params = [a.arg for a in func.args.args]
-    loops = [n for n in walk_no_nested(func) if isinstance(n, ast.While)]
-    if len(loops) != 1:
-        raise Unrecognised('C02.S', f'_parse_binary_expression: expected one re-ordering loop, found {len(loops)}', mod.rel)
-    loop = loops[0]
-    # enclosing if: the top-level test
-    top = getattr(loop, '_parent', None)
-    if not isinstance(top, ast.If):
-        raise Unrecognised('C02.S', 're-ordering loop is not inside the precedence test', mod.rel)
-    defs = {}
-    for n in walk_no_nested(func):
-        if isinstance(n, ast.Assign) and len(n.targets) == 1 and isinstance(n.targets[0], ast.Name):
-            defs.setdefault(n.targets[0].id, []).append(n.value)
-    # new operator variable: assigned from match.group(1)
-    op_var = next((k for k, v in defs.items() if any(isinstance(x, ast.Call) and isinstance(x.func, ast.Attribute) and x.func.attr == 'group' and norm(x.args[0]) == '1' for x in v)), None)
-    if op_var is None:
-        raise Unrecognised('C02.S', 'operator variable (match.group(1)) not found', mod.rel)
-    row_names = {f'BINARY_REORDER[{op_var}]'} | {k for k, v in defs.items() if len(v) == 1 and norm(v[0]) == f'BINARY_REORDER[{op_var}]'}
+# ------------------------------------------------------------------------------------------------ E6x simulation
+N = ('name',)
+NUM = ('num',)
+LP, RP, CM = ('(',), (')',), (',',)
 
-    def membership(test):
-        """[(member_expr_text, row_text)] for `X in ROW` conjuncts"""
-        out = []
-        for c in (test.values if isinstance(test, ast.BoolOp) and isinstance(test.op, ast.And) else [test]):
-            if isinstance(c, ast.Compare) and len(c.ops) == 1 and isinstance(c.ops[0], ast.In):
-                out.append((norm(c.left), norm(c.comparators[0]), c))
-        return out
-    left_var = None
-    # left tree variable: the one tested `'binary' in X` in the top test
-    for c in (top.test.values if isinstance(top.test, ast.BoolOp) else [top.test]):
-        if isinstance(c, ast.Compare) and isinstance(c.ops[0], ast.In) and const_str(c.left) == 'binary' and isinstance(c.comparators[0], ast.Name):
-            left_var = c.comparators[0].id
-    if left_var is None:
-        raise Unrecognised('C02.S', "top test does not check 'binary' in <left tree>", mod.rel)
-    tm = [m for m in membership(top.test) if m[1] in row_names]
-    if len(tm) == 1 and tm[0][0] == f"{left_var}['binary']['op']":
-        chk.ok('C02.S', f'top test: {tm[0][0]} in the table row of the new operator')
-    else:
-        chk.bad('C02.S', mod, func.name, norm(top.test)[:140], 'the precedence test must ask whether the operator at the root of the left tree is in BINARY_REORDER[new operator]', node=top.test)
-    # cursor: variable reassigned in the loop body
-    body_assigns = [s for s in loop.body if isinstance(s, ast.Assign) and isinstance(s.targets[0], ast.Name)]
-    if len(loop.body) != 1 or len(body_assigns) != 1:
-        raise Unrecognised('C02.S', 're-ordering loop body is not a single cursor move', mod.rel)
-    cur = body_assigns[0].targets[0].id
-    move = norm(body_assigns[0].value)
-    if move == f"{cur}['binary']['right']":
-        chk.ok('C02.S', f'cursor {cur} descends along binary.right')
-    else:
-        chk.bad('C02.S', mod, func.name, norm(body_assigns[0]), 'the re-ordering cursor must descend only along the RIGHT spine (cursor = cursor.binary.right)', node=body_assigns[0])
-    lm = [m for m in membership(loop.test) if m[1] in row_names]
-    binary_in = [norm(c.comparators[0]) for c in (loop.test.values if isinstance(loop.test, ast.BoolOp) else [loop.test])
-                 if isinstance(c, ast.Compare) and isinstance(c.ops[0], ast.In) and const_str(c.left) == 'binary']
-    want_child = f"{cur}['binary']['right']"
-    if len(lm) == 1 and lm[0][0] == f"{want_child}['binary']['op']" and binary_in == [want_child]:
-        chk.ok('C02.S', f'loop test inspects the right child of the CURSOR ({want_child}) against the same table row')
-    else:
-        chk.bad('C02.S', mod, func.name, norm(loop.test)[:160],
-                f"the loop must continue while the right child of the cursor ({want_child}) is a binary node whose operator is in BINARY_REORDER[new operator]; "
-                f"testing another node (e.g. the root's child) makes the descent ignore precedence below the first level", node=loop.test)
-    # initial cursor = left tree
-    pre = [s for s in top.body if isinstance(s, ast.Assign) and norm(s.targets[0]) == cur]
-    if pre and norm(pre[0].value) == left_var:
-        chk.ok('C02.S', f'cursor starts at the root of the left tree ({left_var})')
-    else:
-        chk.bad('C02.S', mod, func.name, f'{cur} initial value', 'the cursor must start at the root of the left tree', node=top)
-    # splice
-    right_var = next((k for k, v in defs.items() if any(isinstance(x, ast.Call) for x in v) and k not in (op_var,) and
-                      any(isinstance(t, ast.Tuple) for t in [])), None)
-    splice = [s for s in top.body if isinstance(s, ast.Assign) and isinstance(s.targets[0], ast.Subscript) and norm(s.targets[0]) == f"{cur}['binary']['right']"]
-    # name of the freshly parsed right operand: tuple-unpacked from _parse_unary_expression(right_text)
-    operand = None
-    for n in walk_no_nested(func):
-        if isinstance(n, ast.Assign) and isinstance(n.targets[0], ast.Tuple) and isinstance(n.value, ast.Call) and call_name(n.value) == '_parse_unary_expression' \
-                and n.lineno > (getattr(defs.get(op_var, [None])[0], 'lineno', 0) or 0):
-            operand = n.targets[0].elts[0].id
-    if len(splice) == 1 and isinstance(splice[0].value, ast.Dict):
-        d = splice[0].value
-        inner = d.values[0] if len(d.keys) == 1 and const_str(d.keys[0]) == 'binary' and isinstance(d.values[0], ast.Dict) else None
-        fields = {const_str(k): norm(v) for k, v in zip(inner.keys, inner.values)} if inner is not None else {}
-        if fields == {'op': op_var, 'left': f"{cur}['binary']['right']", 'right': operand}:
-            chk.ok('C02.S', 'splice: new node {op, left: old right child of the cursor, right: parsed operand} replaces that right child')
+
+def op(s):
+    return ('op', s)
+
+
+def chains(length):
+    ops = list(RUNG)
+    for combo in itertools.product(ops, repeat=length):
+        toks = [N]
+        for o in combo:
+            toks += [op(o), N]
+        yield toks
+
+
+REP = ['**', '*', '+', '<', '==', '&&', '||']     # one operator per rung
+OPERAND_FORMS = {
+    'number': [NUM], 'signed-plus number': [op('+'), NUM], 'negated number': [op('-'), NUM], 'string': [('str1',)], 'double-quoted string': [('str2',)],
+    'bracket variable': [('varex',)], 'negation': [op('-'), N], 'not': [op('!'), N], 'not-minus': [op('!'), op('-'), N], 'minus-not': [op('-'), op('!'), N],
+    'minus-minus': [op('-'), op('-'), N], 'not-not-minus': [op('!'), op('!'), op('-'), N], 'minus-not-number': [op('-'), op('!'), NUM],
+    'group': [LP, N, RP], 'nested group': [LP, LP, N, RP, RP], 'call()': [N, LP, RP], 'call(a)': [N, LP, N, RP], 'call(a, b)': [N, LP, N, CM, N, RP],
+    'call(a, b, c)': [N, LP, N, CM, N, CM, N, RP], 'call(call())': [N, LP, N, LP, RP, RP], 'minus group': [op('-'), LP, N, RP], 'not call': [op('!'), N, LP, N, RP],
+    'call(-a)': [N, LP, op('-'), N, RP], 'call((a))': [N, LP, LP, N, RP, RP],
+}
+
+
+def operand_sequences():
+    for name, form in OPERAND_FORMS.items():
+        yield name, list(form)
+        for o1 in REP:
+            yield name, [N, op(o1)] + form
+            yield name, form + [op(o1), N]
+            for o2 in REP:
+                yield name, [N, op(o1)] + form + [op(o2), N]
+    for o1 in REP:
+        for o2 in REP:
+            yield 'group', [LP, N, op(o1), N, RP, op(o2), N]
+            yield 'group', [N, op(o1), LP, N, op(o2), N, RP]
+            yield 'call(a op b, c)', [N, LP, N, op(o1), N, CM, N, op(o2), N, RP]
+            yield 'minus group', [op('-'), LP, N, op(o1), N, RP, op(o2), N]
+            yield 'negation', [op('-'), N, op(o1), op('-'), N, op(o2), op('!'), N]
+
+
+ILL_FORMED = {
+    'empty text': [], 'operator only': [op('+')], 'two operands': [N, N], 'dangling operator': [N, op('+')], 'operator twice': [N, op('*'), op('*'), N],
+    'unclosed group': [LP, N], 'unclosed group after operator': [LP, N, op('+')], 'stray close': [N, RP], 'unclosed call': [N, LP, N],
+    'arguments without separator': [N, LP, N, N, RP], 'leading separator': [N, LP, CM, N, RP], 'trailing separator': [N, LP, N, CM, RP],
+    'lone !': [op('!')], 'lone -': [op('-')], '! as binary operator': [N, op('!'), N], 'unknown character': [('junk',)], 'unknown character after operand': [N, ('junk',)],
+    'empty group': [LP, RP], 'number applied like a call': [NUM, LP, N, RP], 'comma outside a call': [N, CM, N], 'two strings': [('str1',), ('str1',)],
+    'unary plus': [op('+'), N], 'group then operand': [LP, N, RP, N], 'unknown character in arguments': [N, LP, N, ('junk',), RP],
+    'unclosed group in chain': [N, op('+'), LP, N, op('*'), N], 'separator in group': [LP, N, CM, N, RP],
+}
+
+
+def _linear(v):
+    """Sym arithmetic over len(Text@k) -> {k: coeff, 'c': const} or None"""
+    if isinstance(v, int) and not isinstance(v, bool):
+        return {'c': v}
+    if isinstance(v, Sym) and v.kind == 'len' and isinstance(v.args[0], AStream) and v.args[0].aligned:
+        return {v.args[0].pos: 1}
+    if isinstance(v, Sym) and v.kind == 'binop' and v.args[0] in ('Add', 'Sub'):
+        a, b = _linear(v.args[1]), _linear(v.args[2])
+        if a is None or b is None:
+            return None
+        out = dict(a)
+        for k, c in b.items():
+            out[k] = out.get(k, 0) + (c if v.args[0] == 'Add' else -c)
+        return {k: c for k, c in out.items() if c != 0}
+    return None
+
+
+def simulate(chk, mod, rxs, tier):
+    it = ExprInterp(mod, rxs, 'C02.S')
+    stats = {'chains': 0, 'operand sequences': 0, 'ill-formed': 0}
+
+    def run_one(rule, label, toks, reported, limit=6):
+        try:
+            want = reference(toks)
+        except Reject:
+            want = None
+        got = it.parse(toks)
+        text = show(toks)
+        if got[0] == 'reject':
+            sig = got[1]
+            if sig.cls != 'BareScriptParserError':
+                if len(reported) < limit:
+                    chk.bad(rule, mod, 'parse_expression', f'{label}: host {sig.cls}', f'parsing `{text}` raises the host exception {sig.cls}{sig.args_!r} '
+                            f'({norm(sig.node)[:80] if sig.node is not None else ""}) instead of a tree or a parser error', node=sig.node)
+                reported.append(text)
+                return None
+            if want is not None:
+                if len(reported) < limit:
+                    chk.bad(rule, mod, 'parse_expression', f'{label}: rejected', f'`{text}` is a well-formed expression ({pretty(want)}) but the parser rejects it', node=sig.node)
+                reported.append(text)
+                return None
+            return ('reject', sig)
+        if want is None:
+            if len(reported) < limit:
+                chk.bad('C02.R', mod, 'parse_expression', f'{label}: accepted', f'`{text}` is not a well-formed expression ({label}) but the parser accepts it as {pretty(normal(got[1]))}')
+            reported.append(text)
+            return None
+        have = normal(got[1])
+        if have != want:
+            if len(reported) < limit:
+                chk.bad(rule, mod, '_parse_binary_expression' if rule == 'C02.S' else '_parse_unary_expression', f'{label}: wrong tree',
+                        f'`{text}` parses to {pretty(have)}; the precedence ladder (left-associative) dictates {pretty(want)}')
+            reported.append(text)
+            return None
+        return ('tree', have)
+
+    # C02.S: every operator chain
+    depth = 4
+    for length in range(1, depth + 1):
+        bad = []
+        n = 0
+        if length == 4:
+            n, bad = _chains_parallel(chk, mod, rxs)
         else:
-            chk.bad('C02.S', mod, func.name, norm(splice[0])[:160],
-                    'the new binary node must take the cursor\'s old right child as LEFT operand and the newly parsed operand as RIGHT operand', node=splice[0])
-    else:
-        chk.bad('C02.S', mod, func.name, 'splice statement', 'the re-ordered node must be stored as the new right child of the cursor', node=top)
-    # else: wrap the whole left tree
-    els = [s for s in top.orelse if isinstance(s, ast.Assign)]
-    result_var = None
-    if len(els) == 1 and isinstance(els[0].value, ast.Dict):
-        d = els[0].value
-        inner = d.values[0] if len(d.keys) == 1 and const_str(d.keys[0]) == 'binary' and isinstance(d.values[0], ast.Dict) else None
-        fields = {const_str(k): norm(v) for k, v in zip(inner.keys, inner.values)} if inner is not None else {}
-        result_var = norm(els[0].targets[0])
-        if fields == {'op': op_var, 'left': left_var, 'right': operand}:
-            chk.ok('C02.S', 'otherwise the new node wraps the whole left tree as its left operand (left associativity)')
-        else:
-            chk.bad('C02.S', mod, func.name, norm(els[0])[:160], 'without re-ordering the new node must be {op, left: whole left tree, right: parsed operand}', node=els[0])
-    else:
-        chk.bad('C02.S', mod, func.name, 'else branch', 'missing the plain left-associative construction', node=top)
-    # the re-ordered result is the (mutated) left tree
-    res_in_if = [s for s in top.body if isinstance(s, ast.Assign) and norm(s.targets[0]) == result_var]
-    if result_var and res_in_if and norm(res_in_if[0].value) == left_var:
-        chk.ok('C02.S', 'after re-ordering the result is the left tree itself')
-    else:
-        chk.bad('C02.S', mod, func.name, f'{result_var} after re-ordering', 'after splicing, the expression under construction must be the (modified) left tree', node=top)
-    # tail recursion with the remaining text and the combined tree
-    tail = func.body[-1]
-    if isinstance(tail, ast.Return) and isinstance(tail.value, ast.Call) and call_name(tail.value) == func.name and len(tail.value.args) == 2 \
-            and norm(tail.value.args[1]) == result_var:
-        chk.ok('C02.S', 'the chain continues with the remaining text and the combined tree')
-    else:
-        chk.bad('C02.S', mod, func.name, norm(tail)[:120], 'the parser must continue the operator chain with the remaining text and the tree built so far', node=tail)
-
-
-def suffix_vars(func, mod, rxs):
-    """locals that are always suffixes of the function's first parameter (suffix lattice, flow-insensitive fixpoint)"""
-    param = func.args.args[0].arg
-    assigns = {}
-    for n in walk_no_nested(func):
-        if isinstance(n, ast.Assign) and len(n.targets) == 1:
-            t = n.targets[0]
-            if isinstance(t, ast.Name):
-                assigns.setdefault(t.id, []).append(('expr', n.value))
-            elif isinstance(t, ast.Tuple) and len(t.elts) == 2 and isinstance(t.elts[1], ast.Name) and isinstance(n.value, ast.Call):
-                assigns.setdefault(t.elts[1].id, []).append(('second', n.value))
-    match_of = {}
-    for n in walk_no_nested(func):
-        if isinstance(n, ast.Assign) and isinstance(n.targets[0], ast.Name) and isinstance(n.value, ast.Call) and isinstance(n.value.func, ast.Attribute) \
-                and n.value.func.attr == 'match' and isinstance(n.value.func.value, ast.Name) and n.value.args:
-            match_of.setdefault(n.targets[0].id, []).append((n.value.func.value.id, norm(n.value.args[0])))
-    # greatest fixpoint: assume every assigned local is a suffix, drop those with a non-suffix assignment
-    suf = {param} | set(assigns)
-    changed = True
-    while changed:
-        changed = False
-        for name, vals in assigns.items():
-            if name in suf and name != param and not all(_is_suffix(kind, v, suf, match_of, mod) for kind, v in vals):
-                suf.discard(name)
-                changed = True
-    if param in assigns and not all(_is_suffix(kind, v, suf, match_of, mod) for kind, v in assigns[param]):
-        suf.discard(param)
-    return suf, match_of
-
-
-def _is_suffix(kind, v, suf, match_of, mod):
-    if kind == 'second':
-        return call_name(v) in ('_parse_binary_expression', '_parse_unary_expression') and v.args and isinstance(v.args[0], ast.Name) and v.args[0].id in suf
-    if isinstance(v, ast.Name):
-        return v.id in suf
-    if isinstance(v, ast.Subscript) and isinstance(v.slice, ast.Slice) and v.slice.upper is None and v.slice.step is None and isinstance(v.value, ast.Name) and v.value.id in suf:
-        lo = v.slice.lower
-        # len(m.group(0)) where m = R.match(<same text>)
-        if isinstance(lo, ast.Call) and call_name(lo) == 'len' and isinstance(lo.args[0], ast.Call) and isinstance(lo.args[0].func, ast.Attribute) \
-                and lo.args[0].func.attr == 'group' and norm(lo.args[0].args[0]) == '0' and isinstance(lo.args[0].func.value, ast.Name):
-            m = lo.args[0].func.value.id
-            return any(subject == v.value.id for _r, subject in match_of.get(m, []))
-        return False
-    return False
-
-
-def check_operands(chk, mod, rxs):
-    func = mod.func('_parse_unary_expression', 'C02.D')
-    suf, match_of = suffix_vars(func, mod, rxs)
-    param = func.args.args[0].arg
-    order = []
-    branches = {}
-    body = func.body
-    for i, s in enumerate(body):
-        if isinstance(s, ast.Assign) and isinstance(s.targets[0], ast.Name) and s.targets[0].id in match_of and i + 1 < len(body) and isinstance(body[i + 1], ast.If) \
-                and norm(body[i + 1].test) == s.targets[0].id:
-            rname, subject = match_of[s.targets[0].id][0]
-            if subject != param:
-                raise Unrecognised('C02.D', f'operand branch matches {subject}, not the input text', mod.rel)
-            if rname not in rxs:
-                raise Unrecognised('C02.D', f'operand regex {rname} not classified', mod.rel)
-            order.append(rxs[rname][0])
-            branches[rxs[rname][0]] = (body[i + 1], s.targets[0].id, rname)
-    want_kinds = {'group_open', 'unary_op', 'function_open', 'number', 'string', 'string_double', 'variable', 'variable_ex'}
-    if set(order) != want_kinds:
-        chk.bad('C02.D', mod, func.name, f'operand kinds {sorted(set(order) ^ want_kinds)}', f'the operand parser does not try exactly the eight operand forms (difference: {sorted(set(order) ^ want_kinds)})')
-        return branches
-    for a, b, why in (('function_open', 'variable', 'a call `f(` would be read as the variable `f` followed by a group'),
-                      ('unary_op', 'number', 'a leading minus would be absorbed into the number literal instead of being the unary operator'),
-                      ('number', 'variable', 'digits could start an identifier')):
-        if order.index(a) < order.index(b):
-            chk.ok('C02.D', f'{a} is tried before {b}')
-        else:
-            chk.bad('C02.D', mod, func.name, f'{b} before {a}', f'operand form {b} is tried before {a}: {why}', node=branches[b][0])
-    # every branch returns [node, suffix]; the function ends in raise
-    for kind, (ifnode, mvar, rname) in branches.items():
-        rets = [n for n in walk_no_nested(ifnode) if isinstance(n, ast.Return)]
-        good = bool(rets)
-        for r in rets:
-            v = r.value
-            if not (isinstance(v, (ast.List, ast.Tuple)) and len(v.elts) == 2):
-                good = False
+            for toks in chains(length):
+                n += 1
+                run_one('C02.S', f'chain of {length}', toks, bad)
+        stats['chains'] += n
+        if not bad:
+            chk.ok('C02.S', f'all {n} operator chains of length {length} (a op b ...): the interpreted parser builds exactly the tree of the ladder (E6x)')
+        elif len(bad) > 6:
+            chk.note(f'C02.S: {len(bad)} of {n} chains of length {length} parse to the wrong tree (first 6 reported)')
+    if tier == 'thorough':
+        bad, n = [], 0
+        for combo in itertools.product(REP, repeat=5):
+            toks = [N]
+            for o in combo:
+                toks += [op(o), N]
+            n += 1
+            run_one('C02.S', 'chain of 5', toks, bad)
+        stats['chains'] += n
+        if not bad:
+            chk.ok('C02.S', f'all {n} chains of 5 operators drawn one per rung (7^5): trees agree with the ladder (E6x)')
+    # C02.D / C02.U: operand forms
+    per_form = {}
+    for name, toks in operand_sequences():
+        rule = 'C02.U' if any(t in (op('-'), op('!')) for t in OPERAND_FORMS.get(name, [])[:1]) else 'C02.D'
+        rec = per_form.setdefault((rule, name), [0, []])
+        rec[0] += 1
+        run_one(rule, name, toks, rec[1], limit=2)
+        stats['operand sequences'] += 1
+    for (rule, name), (n, bad) in per_form.items():
+        if not bad:
+            chk.ok(rule, f'operand form `{name}`: {n} contexts (alone, left/right of one operator per rung, between two) parse to the dictated tree')
+    # C02.R / C02.X: ill-formed text
+    for label, toks in ILL_FORMED.items():
+        stats['ill-formed'] += 1
+        bad = []
+        r = run_one('C02.R', label, toks, bad)
+        if r is None:
+            continue
+        chk.ok('C02.R', f'{label} (`{show(toks)}`) is rejected with BareScriptParserError')
+        sig = r[1]
+        # every raise on the way carried a suffix of the input; the final column is len(input) - len(suffix) + 1
+        for inner in it.raises:
+            if inner.cls != 'BareScriptParserError' or len(inner.args_) < 2:
                 continue
-            rem = v.elts[1]
-            ok_rem = (isinstance(rem, ast.Name) and rem.id in suf) or _is_suffix('expr', rem, suf, match_of, mod)
-            if not ok_rem:
-                good = False
-                chk.bad('C02.X', mod, func.name, norm(r)[:120], f'the {kind} branch returns a remainder that is not a suffix of the text being parsed: text is dropped or re-read', node=r)
-        if good:
-            chk.ok('C02.D', f'{kind} branch returns [node, remainder] with a suffix remainder')
-        elif not rets:
-            chk.bad('C02.D', mod, func.name, f'{kind} branch without return', f'the {kind} branch does not return [node, remainder]', node=ifnode)
-    last = body[-1]
-    if isinstance(last, ast.Raise) and 'BareScriptParserError' in norm(last):
-        chk.ok('C02.R', 'operand parser: no operand form matches -> raises BareScriptParserError (no fall-through None)')
-    else:
-        chk.bad('C02.R', mod, func.name, norm(last)[:100], 'when no operand form matches the operand parser must raise a parser error (falling through returns None and the caller fails with a host TypeError)', node=last)
-    # group branch: raises when the close does not match
-    g = branches['group_open'][0]
-    raises = [n for n in walk_no_nested(g) if isinstance(n, ast.Raise)]
-    guard_ok = any(isinstance(getattr(r, '_parent', None), ast.If) and 'is None' in norm(r._parent.test) or (isinstance(getattr(r, '_parent', None), ast.If) and norm(r._parent.test).startswith('not ')) for r in raises)
-    if raises and guard_ok:
-        chk.ok('C02.R', 'group: missing closing parenthesis raises')
-    else:
-        chk.bad('C02.R', mod, func.name, 'group close', 'a group whose closing parenthesis does not match must raise a parser error', node=g)
-    f = branches['function_open'][0]
-    raises = [n for n in walk_no_nested(f) if isinstance(n, ast.Raise)]
-    if raises:
-        chk.ok('C02.R', 'call: missing argument separator raises')
-    else:
-        chk.bad('C02.R', mod, func.name, 'argument separator', 'in an argument list, text that is neither `)` nor `,` must raise a parser error', node=f)
-    return branches
-
-
-def check_unary(chk, mod, branches):
-    func = mod.func('_parse_unary_expression', 'C02.U')
-    ifnode, mvar, rname = branches['unary_op']
-    loops = [n for n in walk_no_nested(ifnode) if isinstance(n, (ast.For, ast.While))]
-    dicts = [n for n in walk_no_nested(ifnode) if isinstance(n, ast.Dict) and len(n.keys) == 1 and const_str(n.keys[0]) == 'unary']
-    if len(dicts) != 1:
-        raise Unrecognised('C02.U', 'unary branch does not build exactly one unary node', mod.rel)
-    d = dicts[0].values[0]
-    fields = {const_str(k): v for k, v in zip(d.keys, d.values)} if isinstance(d, ast.Dict) else {}
-    if not loops:
-        op_ok = norm(fields.get('op')) == f'{mvar}.group(1)'
-        # operand: first component of the recursive parse of the text after this operator
-        rec = [n for n in walk_no_nested(ifnode) if isinstance(n, ast.Assign) and isinstance(n.targets[0], ast.Tuple) and isinstance(n.value, ast.Call)
-               and call_name(n.value) == func.name]
-        operand_ok = len(rec) == 1 and norm(fields.get('expr')) == norm(rec[0].targets[0].elts[0])
-        if op_ok and operand_ok:
-            chk.ok('C02.U', 'unary: {op: the matched operator, expr: result of parsing the text after it} (prefix operators nest right-to-left, binding tighter than any binary operator)')
+            t = inner.args_[1]
+            if not isinstance(t, AStream) or not t.aligned:
+                chk.bad('C02.X', mod, 'parse_expression', f'{label}: error text {t!r}', f'while rejecting `{show(toks)}` the parser error carries {t!r}, which is not a suffix of the input cut at a token boundary: '
+                        f'the column computed from its length is wrong', node=inner.node)
+        col = sig.args_[2] if len(sig.args_) > 2 else 1
+        lin = _linear(col)
+        if lin is None:
+            raise Unrecognised('C02.X', f'column expression {col!r} not linear in text lengths', mod.rel)
+        ks = sorted(k for k in lin if k != 'c')
+        at = None
+        if lin.get('c') == 1 and len(ks) == 2 and ks[0] == 0 and lin[0] == 1 and lin[ks[1]] == -1:
+            at = ks[1]
+        elif lin == {'c': 1}:
+            at = 0
+        if at is None or not (isinstance(sig.args_[1], AStream) and sig.args_[1].pos == 0):
+            chk.bad('C02.X', mod, 'parse_expression', f'{label}: column {col!r}', f'rejecting `{show(toks)}`: the reported column is {col!r}, not len(input) - len(offending suffix) + 1 over the whole input', node=sig.node)
         else:
-            chk.bad('C02.U', mod, func.name, norm(dicts[0])[:140], 'a unary node must pair the matched operator with the operand parsed from the text that follows it', node=dicts[0])
-        if rec and call_name(rec[0].value) != func.name:
-            chk.bad('C02.U', mod, func.name, norm(rec[0])[:100], 'the operand of a unary operator must be a unary-level expression (not a whole binary chain)', node=rec[0])
-        return
-    # loop form: operators collected in a list, then applied
-    fors = [n for n in loops if isinstance(n, ast.For) and any(x is dicts[0] for x in ast.walk(n))]
-    if len(fors) == 1:
-        it = norm(fors[0].iter)
-        if it.startswith('reversed(') or it.endswith('[::-1]'):
-            chk.ok('C02.U', f'unary operators collected in source order are applied innermost-last ({it})')
-        else:
-            chk.bad('C02.U', mod, func.name, f'for ... in {it}',
-                    f'prefix operators collected in source order are wrapped around the operand in the same order ({it}): the FIRST operator becomes the innermost, '
-                    f'so `!-a` parses as -(!a); they must be applied in reverse order', node=fors[0])
-        return
-    raise Unrecognised('C02.U', 'unary branch with a loop is not understood', mod.rel)
+            chk.ok('C02.X', f'{label}: reported text is the whole input, column = 1 + offset of token {at}')
+    chk.extra['simulation'] = stats
+    return stats
 
 
-def check_rejection(chk, mod):
-    func = mod.func('parse_expression', 'C02.R')
-    rets = [n for n in walk_no_nested(func) if isinstance(n, ast.Return)]
-    tr = [n for n in func.body if isinstance(n, ast.Try)]
-    if len(tr) != 1 or len(rets) != 1:
-        raise Unrecognised('C02.R', 'parse_expression is not try: parse / test / return', mod.rel)
-    body = tr[0].body
-    call = [s for s in body if isinstance(s, ast.Assign) and isinstance(s.value, ast.Call) and call_name(s.value) == '_parse_binary_expression']
-    if len(call) != 1 or not isinstance(call[0].targets[0], ast.Tuple):
-        raise Unrecognised('C02.R', 'parse_expression does not unpack [tree, remainder] from _parse_binary_expression', mod.rel)
-    tree, rem = [e.id for e in call[0].targets[0].elts]
-    ix_ret = body.index(rets[0]) if rets[0] in body else None
-    tests = [s for s in body if isinstance(s, ast.If) and any(isinstance(x, ast.Raise) for x in s.body)]
-    good = False
-    for t in tests:
-        tt = norm(t.test)
-        if tt in (f"{rem}.strip() != ''", f'{rem}.strip()', f"{rem}.strip() != \"\"", f'len({rem}.strip()) > 0', f'{rem}.strip() != str()') and ix_ret is not None and body.index(t) < ix_ret:
-            good = True
-    if good and norm(rets[0].value) == tree:
-        chk.ok('C02.R', f'parse_expression returns the tree only after `{rem}` (the unparsed remainder) was tested blank; otherwise raises')
+def _chain_job(args):
+    root, start, stop = args
+    from ..core import Repo
+    repo = Repo(root)
+    mod = repo.module('parser')
+    rxs = classify_expr_regexes(mod)
+    it = ExprInterp(mod, rxs, 'C02.S')
+    ops = list(RUNG)
+    out = []
+    n = 0
+    for ix in range(start, stop):
+        combo = []
+        x = ix
+        for _ in range(4):
+            combo.append(ops[x % 14])
+            x //= 14
+        toks = [N]
+        for o in combo:
+            toks += [op(o), N]
+        n += 1
+        try:
+            got = it.parse(toks)
+        except Unrecognised as exc:
+            return ('unrec', str(exc))
+        want = reference(toks)
+        if got[0] != 'tree':
+            out.append((show(toks), f'{got[1].cls}', pretty(want)))
+        elif normal(got[1]) != want:
+            out.append((show(toks), pretty(normal(got[1])), pretty(want)))
+    return ('ok', n, out)
+
+
+def _chains_parallel(chk, mod, rxs):
+    import multiprocessing as mp
+    total = 14 ** 4
+    step = total // 32 + 1
+    jobs = [(chk.repo.root, a, min(a + step, total)) for a in range(0, total, step)]
+    if os.environ.get('VERIF_SERIAL'):
+        results = [_chain_job(j) for j in jobs]
     else:
-        chk.bad('C02.R', mod, func.name, 'blank-remainder test', 'parse_expression must raise a parser error unless the text after the parsed expression is blank (trailing garbage would be silently ignored)', node=func)
-    # raise sites pass suffixes (C02.X / C06.X)
-    for fname in ('parse_expression', '_parse_unary_expression', '_parse_binary_expression'):
-        f = mod.func(fname, 'C02.X')
-        suf, match_of = suffix_vars(f, mod, {})
-        if fname == 'parse_expression':
-            suf.add(rem)
-        for n in walk_no_nested(f):
-            if isinstance(n, ast.Raise) and isinstance(n.exc, ast.Call) and call_name(n.exc) == 'BareScriptParserError' and len(n.exc.args) >= 2:
-                inside_handler = any(isinstance(p, ast.ExceptHandler) for p in _parents(n))
-                if inside_handler:
-                    continue
-                t = n.exc.args[1]
-                if isinstance(t, ast.Name) and t.id in suf:
-                    chk.ok('C02.X', f'{fname}: error text {t.id} is a suffix of the input (column = len(input) - len(text) + 1 points at it)')
-                else:
-                    chk.bad('C02.X', mod, fname, norm(n)[:120],
-                            f'the error carries {norm(t)}, which is not a suffix of the text being parsed: the column computed from its length points at the wrong character', node=n)
+        with mp.Pool(min(16, os.cpu_count() or 1)) as pool:
+            results = pool.map(_chain_job, jobs)
+    n, bad = 0, []
+    for r in results:
+        if r[0] == 'unrec':
+            raise Unrecognised('C02.S', r[1], mod.rel)
+        n += r[1]
+        for text, have, want in r[2]:
+            if len(bad) < 6:
+                chk.bad('C02.S', mod, '_parse_binary_expression', 'chain of 4: wrong tree', f'`{text}` parses to {have}; the precedence ladder (left-associative) dictates {want}')
+            bad.append(text)
+    return n, bad
 
 
-def _parents(n):
-    n = getattr(n, '_parent', None)
-    while n is not None:
-        yield n
-        n = getattr(n, '_parent', None)
+def check_error_texts(chk, mod):
+    """C06.X entry point: only the ill-formed part of the simulation (shared with C02.X / C02.R)"""
+    rxs = classify_expr_regexes(mod)
+    it_rule = 'C06.X'
+    before = len(chk.findings)
+    simulate_ill = ILL_FORMED
+    it = ExprInterp(mod, rxs, it_rule)
+    for label, toks in simulate_ill.items():
+        got = it.parse(toks)
+        if got[0] != 'reject' or got[1].cls != 'BareScriptParserError':
+            continue        # C02.R's business
+        sig = got[1]
+        ok = True
+        for inner in it.raises:
+            if inner.cls == 'BareScriptParserError' and len(inner.args_) >= 2 and not (isinstance(inner.args_[1], AStream) and inner.args_[1].aligned):
+                ok = False
+                chk.bad('C06.X', mod, 'parse_expression', f'{label}: error text {inner.args_[1]!r}', f'while rejecting `{show(toks)}` the parser error carries {inner.args_[1]!r}, which is not a suffix of the input '
+                        f'cut at a token boundary: the column computed from its length points at the wrong character', node=inner.node)
+        col = sig.args_[2] if len(sig.args_) > 2 else 1
+        lin = _linear(col)
+        if lin is None:
+            raise Unrecognised('C06.X', f'column expression {col!r} not linear in text lengths', mod.rel)
+        ks = sorted(k for k in lin if k != 'c')
+        good = (lin.get('c') == 1 and len(ks) == 2 and ks[0] == 0 and lin[0] == 1 and lin[ks[1]] == -1) or lin == {'c': 1}
+        if not good or not (isinstance(sig.args_[1], AStream) and sig.args_[1].pos == 0):
+            ok = False
+            chk.bad('C06.X', mod, 'parse_expression', f'{label}: column {col!r}', f'rejecting `{show(toks)}`: the reported column is {col!r}, not len(input) - len(offending suffix) + 1 over the whole input', node=sig.node)
+        if ok:
+            chk.ok('C06.X', f'{label}: error text is a suffix of the input and the column is 1 + its offset (E6x)')
 
 
 def check_identifiers(chk, mod, rxs):
@@ -506,11 +416,11 @@ def run(chk):
     chk.rule('C02.T', 'precedence table = strictly-lower-rung sets (14 rows)', floor=14)
     chk.rule('C02.A', 'operator sets agree: tokeniser, table, schema, evaluator', floor=5)
     chk.rule('C02.L', 'longest operator first in the ordered alternation', floor=3)
-    chk.rule('C02.S', 'right-spine re-ordering discipline', floor=8)
-    chk.rule('C02.D', 'operand forms tried in an order that resolves overlaps; each returns [node, remainder]', floor=10)
-    chk.rule('C02.U', 'unary operators nest right-to-left around the following operand', floor=1)
-    chk.rule('C02.R', 'ill-formed text is rejected (blank remainder test, final raise, unmatched parenthesis, separator)', floor=4)
-    chk.rule('C02.X', 'remainders and error texts are suffixes of the input', floor=4)
+    chk.rule('C02.S', 'operator chains parse to the tree of the ladder (abstract interpretation over token streams, E6x)', floor=4)
+    chk.rule('C02.D', 'operand forms (literals, groups, calls) in operator contexts parse to the dictated tree', floor=12)
+    chk.rule('C02.U', 'prefix operators nest right-to-left around the following operand, tighter than any binary operator', floor=6)
+    chk.rule('C02.R', 'ill-formed token sequences are rejected with BareScriptParserError', floor=20)
+    chk.rule('C02.X', 'remainders and error texts are suffixes of the input; column = 1 + offset', floor=20)
     chk.assumptions += ['regex engine semantics (ordered alternation, anchors) are CPython\'s; the spine argument (table + loop shape => precedence/associativity) is pencil-and-paper, see DESIGN.md']
     mod = chk.repo.module('parser')
     table = chk.guard('C02.T', check_table, chk, mod)
@@ -518,9 +428,5 @@ def run(chk):
     chk.extra['expression_regexes'] = {n: k for n, (k, _r) in rxs.items()}
     if table is not None:
         chk.guard('C02.A', check_agreement, chk, mod, table, rxs)
-    chk.guard('C02.S', check_spine, chk, mod)
-    branches = chk.guard('C02.D', check_operands, chk, mod, rxs)
-    if branches:
-        chk.guard('C02.U', check_unary, chk, mod, branches)
-    chk.guard('C02.R', check_rejection, chk, mod)
+    chk.guard('C02.S', simulate, chk, mod, rxs, chk.tier)
     chk.guard('C02.I', check_identifiers, chk, mod, rxs)
